@@ -212,7 +212,8 @@ def parse_vspec(path):
 
 
 def _join(text_lines):
-    t = '\n'.join(text_lines).rstrip()
+    # clause text: comment-only continuation lines (notes between directives) are not part of the clause
+    t = '\n'.join(l for l in text_lines if not l.strip().startswith('//')).rstrip()
     return t
 
 
@@ -245,6 +246,9 @@ def locate_fn(m, spec):
                 cands.append((f, b))
         elif spec.container in header:
             cands.append((f, b))
+    exact = [(f, b) for f, b in cands if b is not None and short_container(b.header) == ' '.join(spec.container.split())]
+    if exact:
+        cands = exact
     if len(cands) != 1:
         raise Undecided('anchor: function %s | %s | %s matches %d items (%s:%d)' % (
             spec.file, spec.container, spec.name, len(cands), spec.vfile, spec.vline))
@@ -290,6 +294,9 @@ def weave_file(file, src, fnspecs, blockitems, canary=False):
         if bfile != file:
             continue
         cands = [b for b in blocks if bcontainer in b.header]
+        exact = [b for b in cands if short_container(b.header) == ' '.join(bcontainer.split())]
+        if exact:
+            cands = exact
         if len(cands) != 1:
             raise Undecided('anchor: block %s | %s matches %d (%s:%d)' % (bfile, bcontainer, len(cands), vfile, vline))
         b = cands[0]
